@@ -1,0 +1,59 @@
+//go:build verif
+
+package ast
+
+import (
+	"fmt"
+	"strings"
+
+	"github.com/jmeaster30/vore/libvore/ds"
+)
+
+// Verification hooks for the parser model (C08 / C15): run the regex sub-parser alone, and
+// parse a caller-supplied token list.
+
+// VerifParseRegexp runs parse_regexp on one REGEXP lexeme and dumps the expression it builds.
+// Unnamed groups are numbered by a counter that parse() resets once per program and that runs
+// across the literals of that program: pass reset=true for the first literal of a program and
+// call in program order for the others.
+func VerifParseRegexp(lexeme string, reset bool) (dump string, err error) {
+	if reset {
+		capture_group_number = 0
+	}
+	z := &ds.Range{}
+	tok := &Token{TokenType: REGEXP, Offset: z, Line: z, Column: z, Lexeme: lexeme}
+	e, _, perr := parse_regexp([]*Token{tok}, 0)
+	if perr != nil {
+		return "", perr
+	}
+	return VerifDumpExpr(e), nil
+}
+
+// VerifParseTokens runs the parser (not the lexer) on the tokens of src and dumps the tree.
+func VerifParseSource(src string) (dump string, toks []VerifToken, lexErr error, parseErr error) {
+	lexer := initLexer(strings.NewReader(src))
+	tokens, lerr := lexer.getTokens()
+	if lerr != nil {
+		return "", nil, lerr, nil
+	}
+	for _, t := range tokens {
+		toks = append(toks, VerifToken{int(t.TokenType), t.TokenType.PP(), t.Lexeme, t.Offset.Start, t.Offset.End})
+	}
+	commands, perr := parse(tokens)
+	if perr != nil {
+		return "", toks, nil, perr
+	}
+	a := &Ast{commands}
+	return a.VerifDump(), toks, nil, nil
+}
+
+// VerifParseErrorIndex: the index (in the token list) of the token a ParseError points at, -1 if unknown.
+func VerifParseErrorInfo(err error) (message string, tokenStart int) {
+	if pe, ok := err.(*ParseError); ok {
+		if pe.token != nil && pe.token.Offset != nil {
+			return pe.message, pe.token.Offset.Start
+		}
+		return pe.message, -1
+	}
+	return fmt.Sprint(err), -1
+}
